@@ -339,9 +339,19 @@ def leaf1(cfg):
             if e.get('k') == 'init' and e.get('field'):
                 fields[e['field']] = xsig(c, e['e'], inits)
         copies = []
+        unrecognised = []
         for b, i, e in c.elements():
-            if e.get('k') == 'call' and e.get('name') in ('memcpy', 'memmove', 'copy', 'copy_n') and len(e.get('args', [])) == 3:
-                copies.append(tuple(xsig(c, a, inits) for a in e['args']))
+            if e.get('k') == 'call' and e.get('name') in ('memcpy', 'memmove', '__builtin_memcpy', 'copy', 'copy_n', 'uninitialized_copy_n') and len(e.get('args', [])) == 3:
+                a = [xsig(c, x, inits) for x in e['args']]
+                if e['name'] in ('memcpy', 'memmove', '__builtin_memcpy'):
+                    copies.append((a[0], a[1], a[2]))              # (destination, source, length)
+                elif e['name'] in ('copy_n', 'uninitialized_copy_n'):
+                    copies.append((a[2], a[0], a[1]))
+                else:
+                    unrecognised.append(e['name'])
+        if unrecognised or len(copies) != 2:
+            res.incompl('LEAF-1: the constructor of %s does not copy key and value with two memcpy / copy_n calls (%d recognised, other: %s): shape not recognised' % (sh(c.cls)[:60], len(copies), unrecognised))
+            continue
         getters = {}
         for g in cfg.functions:
             if g.blocks and g.cls == c.cls and g.short in ('get_key_view', 'get_value_view'):
